@@ -791,10 +791,17 @@ func (c *Client) logs(ctx context.Context, url string, filter *glf.Filter, bm bl
 	if err != nil {
 		return fmt.Errorf("making logs request: %w", err)
 	}
-	var (
-		hresp = resp[0].(*headerResp)
-		lresp = resp[1].(*logResp)
-	)
+	if len(resp) != 2 {
+		return fmt.Errorf("eth_getLogs batch response has %d results. expected 2", len(resp))
+	}
+	hresp, ok := resp[0].(*headerResp)
+	if !ok {
+		return fmt.Errorf("eth_getLogs batch response has an unexpected block result")
+	}
+	lresp, ok := resp[1].(*logResp)
+	if !ok {
+		return fmt.Errorf("eth_getLogs batch response has an unexpected logs result")
+	}
 	switch {
 	case hresp.Error.Exists():
 		return fmt.Errorf("rpc=eth_getLogs/eth_getBlockByNumber %w", lresp.Error)
